@@ -261,6 +261,10 @@ func c15SwitchVsPools(snap vP4Snap, a *vAgent) []mMismatch {
 // keeps the lowest ones: an identifier that is freed although somebody holds it, or handed out twice, then meets its
 // other owner within a few requests instead of after hundreds of sessions. It returns how many ids were taken per pool.
 func c15ShrinkPools(a *vAgent, keep int) map[string]int {
+	return c15ShrinkPoolsN(a, keep, keep, 6, 6)
+}
+
+func c15ShrinkPoolsN(a *vAgent, keep, keepMeter, keepPeer, keepApp int) map[string]int {
 	taken := map[string]int{}
 	a.quiesced(func() {
 		up4, ok := a.iface.fp.(*UP4)
@@ -274,7 +278,7 @@ func c15ShrinkPools(a *vAgent, keep int) map[string]int {
 				taken["counter"]++
 			}
 		}
-		for i := uint32(keep + 1); i < 1024; i++ {
+		for i := uint32(keepMeter + 1); i < 1024; i++ {
 			if up4.appMeterCellIDsPool.Contains(i) {
 				up4.appMeterCellIDsPool.Remove(i)
 				taken["app_meter"]++
@@ -285,15 +289,15 @@ func c15ShrinkPools(a *vAgent, keep int) map[string]int {
 			}
 		}
 		up4.tunnelPeerMu.Lock()
-		if n := len(up4.tunnelPeerIDsPool); n > 6 {
-			taken["tunnel_peer"] = n - 6
-			up4.tunnelPeerIDsPool = up4.tunnelPeerIDsPool[:6]
+		if n := len(up4.tunnelPeerIDsPool); n > keepPeer {
+			taken["tunnel_peer"] = n - keepPeer
+			up4.tunnelPeerIDsPool = up4.tunnelPeerIDsPool[:keepPeer]
 		}
 		up4.tunnelPeerMu.Unlock()
 		up4.applicationMu.Lock()
-		if n := len(up4.applicationIDsPool); n > 6 {
-			taken["application"] = n - 6
-			up4.applicationIDsPool = up4.applicationIDsPool[:6]
+		if n := len(up4.applicationIDsPool); n > keepApp {
+			taken["application"] = n - keepApp
+			up4.applicationIDsPool = up4.applicationIDsPool[:keepApp]
 		}
 		up4.applicationMu.Unlock()
 	})
@@ -473,6 +477,91 @@ func TestVerif_C15(t *testing.T) {
 		run(si, scens[si], faults, fmt.Sprintf("scenario %d, writes %v fail", si, faults), []string{"rpc", "upd"}[rng.Intn(2)], rng.Intn(2) == 0)
 		res.eval(1)
 		res.distinct(fmt.Sprintf("multi/s%d/n%d", si, len(faults)))
+	}
+	// ---- exhaustion: with a pool run dry the agent refuses; it never hands out an identifier somebody holds
+	for r := 0; r < vEnv.pick(48, 2000); r++ {
+		idx++
+		if !vEnv.mine(idx) {
+			continue
+		}
+		rng := vEnv.rng("c15x", r)
+		keepC := []int{2, 4, 6, 16}[rng.Intn(4)]
+		keepM := []int{1, 2, 4, 16}[rng.Intn(4)]
+		keepP := []int{1, 2, 6}[rng.Intn(3)]
+		keepA := []int{1, 2, 6}[rng.Intn(3)]
+		label := fmt.Sprintf("exhaustion (free: %d counters, %d meter cells per pool, %d tunnel-peer ids, %d application ids)", keepC, keepM, keepP, keepA)
+		res.begin(idx, "c15 "+label, nil)
+		o := vDefaultOpts(true, vEnv.addr(1))
+		a, err := vStartAgent(o)
+		if err != nil {
+			res.inconclusive("agent start: " + err.Error())
+			return
+		}
+		func() {
+			defer a.stop(vStopWatchdog)
+			p, err := vNewPeer(vEnv.addr(2), o.N4)
+			if err != nil {
+				return
+			}
+			defer p.close()
+			if c01Request(p, p.assocSetup(1), 1) == nil {
+				res.inconclusive("association setup unanswered")
+				return
+			}
+			taken := c15ShrinkPoolsN(a, keepC, keepM, keepP, keepA)
+			ups := map[int]uint64{}
+			seq := uint32(10)
+			var trace []string
+			nacc, nrej := 0, 0
+			check := func() {
+				w := map[string]interface{}{"exhaustion": label, "trace": append([]string{}, trace...)}
+				snap := a.p4.snapshot()
+				for _, x := range c15Exclusive(snap) {
+					res.violate(x.Rule, x.Shape, label+": "+x.What, w)
+				}
+				for _, x := range c15Conservation(a, taken) {
+					res.violate(x.Rule, x.Shape, label+": "+x.What, w)
+				}
+				for _, x := range c15SwitchVsPools(snap, a) {
+					res.violate(x.Rule, x.Shape, label+": "+x.What, w)
+				}
+				res.event("switch_states_checked", 1)
+			}
+			for n := 0; n < 12; n++ {
+				seq++
+				// every session behind its own base station, with its own application filter and 1-3 QERs
+				st := c15Step{"est", n, fmt.Sprintf("198.18.7.%d", 10+n), 1 + n, 1 + rng.Intn(3)}
+				m := c01Request(p, p.establish(c15Est(seq, 700+r%50*16+n, st)), seq)
+				acc := m != nil && vDecodeReply(m).Cause == ie.CauseRequestAccepted
+				trace = append(trace, fmt.Sprintf("est s%d (gnb %s, app %d, %d QERs) accepted=%v", n, st.gnb, st.app, st.nq, acc))
+				if acc {
+					ups[n] = c01UPSEID(m)
+					nacc++
+				} else {
+					nrej++
+				}
+				check()
+				if n%4 == 3 && len(ups) > 0 {
+					// somebody leaves: what it held can be used again
+					for k, u := range ups {
+						seq++
+						dm := c01Request(p, p.deletion(seq, u), seq)
+						trace = append(trace, fmt.Sprintf("del s%d accepted=%v", k, dm != nil && vDecodeReply(dm).Cause == ie.CauseRequestAccepted))
+						delete(ups, k)
+						break
+					}
+					check()
+				}
+			}
+			a.p4.takeC16()
+			res.eval(1)
+			res.event("exhaustion_runs", 1)
+			res.event("establishments_refused_at_exhaustion", nrej)
+			res.distinct(fmt.Sprintf("exhaust/c%d/m%d/p%d/a%d/acc%d", keepC, keepM, keepP, keepA, nacc))
+			if nrej == 0 {
+				res.note("exhaustion run without a single refusal: " + label)
+			}
+		}()
 	}
 	_ = rand.Int
 }
